@@ -59,6 +59,15 @@ theorem gcxsCtorChecks_cases (a b : Int) (shapeOk dec : Bool) (ndim sh0 nd ni np
   unfold Gen.gcxsCtorChecks
   gen_eq
 
+set_option maxHeartbeats 4000000 in
+/-- from two dimensions up, a triple whose `indptr` decreases somewhere is never accepted (whatever the other quantities are) -/
+theorem gcxsCtorChecks_ok_nondecreasing (a b : Int) (shapeOk dec : Bool) (ndim sh0 nd ni np rows cols p0 pl imin imax : Int)
+    (h2 : 2 ≤ ndim)
+    (h : Gen.gcxsCtorChecks a shapeOk ndim sh0 nd ni np rows cols p0 pl dec b imin imax = .ok ()) : dec = false := by
+  revert h
+  unfold Gen.gcxsCtorChecks
+  cases dec <;> gen_eq
+
 theorem gcxsCtorChecksHead_ok_iff (shapeOk : Bool) (ndim nd ni : Int) :
     Gen.gcxsCtorChecksHead 1 shapeOk ndim nd ni = .ok () ↔ shapeOk = true ∧ (1 ≤ ndim → nd = ni) := by
   unfold Gen.gcxsCtorChecksHead
